@@ -82,6 +82,20 @@ func (e *Env) writeOutputs(proc, key string, outs map[string]string, ins map[str
 			}
 			continue
 		}
+		if ps := e.Spec.proc(proc); ps != nil && ps.LinkOut {
+			// tool --out /elsewhere/store/x && ln -s /elsewhere/store/x out
+			store := filepath.Join(filepath.Dir(strings.TrimSuffix(cwdPrefix, "/")), "store")
+			os.MkdirAll(store, 0777)
+			target := filepath.Join(store, proc+"-"+filepath.Base(outs[port]))
+			if err := os.WriteFile(target, data, 0644); err != nil {
+				return err
+			}
+			os.Remove(outs[port])
+			if err := os.Symlink(target, outs[port]); err != nil {
+				return err
+			}
+			continue
+		}
 		if err := vs.FSWriteFile(outs[port], data[:half], 0644); err != nil {
 			return err
 		}
